@@ -15,8 +15,8 @@
 (* Impl = "asis" : the candidates are considered in the order in which          *)
 (*                 `range m.routes` happens to deliver them (any permutation).  *)
 (* Impl = "fixed": the candidates are first put into a canonical order          *)
-(*                 (fewer variables, longer text, text order, specific method   *)
-(*                 before ANY) - the design / the proposed repair.              *)
+(*                 (fewer variables, longer text, text order, the request's     *)
+(*                 method before ANY) - the design / the proposed repair.       *)
 (* Impl = "most" : negative control only - canonical order, but the candidate   *)
 (*                 with the MOST variables wins (must violate MostSpecific).    *)
 EXTENDS Integers, Sequences, FiniteSets, FiniteSetsExt, SequencesExt, TLC
@@ -39,7 +39,8 @@ NoRoute == [m |-> "", e |-> <<>>]
 -----------------------------------------------------------------------------
 (* text level helpers *)
 IsGlob(t) == t \in GlobTexts
-IsVar(t)  == t \in VarTexts \cup GlobTexts             \* strings.HasPrefix(part, "{{")
+VarLike   == VarTexts \cup GlobTexts
+IsVar(t)  == t \in VarLike                             \* strings.HasPrefix(part, "{{")
 
 \* if len(s) > 1 { s = strings.TrimSuffix(s, "/") + "/" }
 Norm(s)   == IF s = Root THEN s ELSE IF s[Len(s)] = "" THEN s ELSE Append(s, "")
@@ -50,19 +51,19 @@ Width(s)  == IF s = <<>> THEN 0 ELSE 1 + Len(Head(s)) + Width(Tail(s))   \* len(
 
 MethodOK(r, q) == r.m = AnyM \/ r.m = q.m
 
-\* the masking loop of FindRoute, as a predicate
-PathMatch(e, p) ==
-  LET ep == Parts(Norm(e))
-      tp == Parts(Norm(p))
-      G  == {i \in 1..Len(ep) : IsGlob(ep[i])}
+\* the masking loop of FindRoute, as a predicate on the parts of the (normalised) endpoint and path
+PartsMatch(ep, tp) ==
+  LET G == {i \in 1..Len(ep) : IsGlob(ep[i])}
   IN IF G # {}
-       THEN LET g == Min(G)                            \* globIdx + 1
+       THEN LET g == Min(G)                            \* globIdx + 1: the fixed parts before the glob must be equal
             IN Len(tp) >= g - 1 /\ \A i \in 1..(g - 1) : ep[i] = tp[i]
        ELSE \A i \in 1..Len(ep) : IsVar(ep[i]) \/ i > Len(tp) \/ tp[i] = ep[i]
+PathMatch(e, p) == PartsMatch(Parts(Norm(e)), Parts(Norm(p)))
 
 \* "/" is always a candidate (whatever its method); every other route needs path and method
-Candidate(r, q) == IF r.e = Root THEN TRUE ELSE PathMatch(r.e, q.p) /\ MethodOK(r, q)
-Cands(T, q)     == {r \in T : Candidate(r, q)}
+Candidate(r, q) == IF r.e = Root THEN TRUE ELSE MethodOK(r, q) /\ PathMatch(r.e, q.p)
+Cands(T, q)     == LET tp == Parts(Norm(q.p))
+                   IN {r \in T : IF r.e = Root THEN TRUE ELSE MethodOK(r, q) /\ PartsMatch(Parts(Norm(r.e)), tp)}
 
 Ok(r) == [st |-> 200, r |-> r]
 
@@ -110,15 +111,21 @@ TextLess(s, t) == IF s = <<>> THEN t # <<>>
                   ELSE IF t = <<>> THEN FALSE
                   ELSE IF Head(s) = Head(t) THEN TextLess(Tail(s), Tail(t))
                   ELSE TokRank[Head(s)] < TokRank[Head(t)]
-Before(a, b) ==
+\* for one endpoint: the route for the request's own method, then the one for any method, then by method name
+MethodOrder == <<"ANY", "DELETE", "GET", "HEAD", "PATCH", "POST", "PUT", "UPDATE">>
+MethodPos(m) == IF \E k \in 1..Len(MethodOrder) : MethodOrder[k] = m
+                  THEN CHOOSE k \in 1..Len(MethodOrder) : MethodOrder[k] = m ELSE 0
+MethodRank(r, q) == IF r.m = q.m THEN 0 ELSE IF r.m = AnyM THEN 1 ELSE 2
+Before(a, b, q) ==
   IF VarCount(a.e) # VarCount(b.e) THEN VarCount(a.e) < VarCount(b.e)
   ELSE IF Width(a.e) # Width(b.e) THEN Width(a.e) > Width(b.e)
   ELSE IF a.e # b.e THEN TextLess(a.e, b.e)
-  ELSE a.m # AnyM /\ b.m = AnyM
-Canon(C) == SetToSortSeq(C, Before)
+  ELSE IF MethodRank(a, q) # MethodRank(b, q) THEN MethodRank(a, q) < MethodRank(b, q)
+  ELSE MethodPos(a.m) < MethodPos(b.m)
+Canon(C, q) == SetToSortSeq(C, LAMBDA a, b : Before(a, b, q))
 
 Perms(C)  == {o \in [1..Cardinality(C) -> C] : \A i, j \in 1..Cardinality(C) : i # j => o[i] # o[j]}
-ScanOrders(C) == IF Impl = "asis" THEN Perms(C) ELSE {Canon(C)}
+ScanOrders(C, q) == IF Impl = "asis" THEN Perms(C) ELSE {Canon(C, q)}
 
 -----------------------------------------------------------------------------
 (* state machine *)
@@ -132,7 +139,7 @@ Register(r) == /\ Cardinality(table) < MaxRoutes
                /\ UNCHANGED req
 
 \* Router.FindRoute(req.m, req.p): scan the map (some order), keep the candidates, select
-Lookup == \E o \in ScanOrders(Cands(table, req)) :
+Lookup == \E o \in ScanOrders(Cands(table, req), req) :
              /\ seen' = seen \cup {Cascade(o, req)}
              /\ UNCHANGED <<table, req>>
 
@@ -156,5 +163,5 @@ MostSpecific == \A res \in seen : Prefers(res, Cands(table, req))
 OutcomesExact ==
   LET C == Cands(table, req)
   IN IF Impl = "asis" THEN {Cascade(o, req) : o \in Perms(C)} = Outcomes(C, req)
-     ELSE Cascade(Canon(C), req) \in Outcomes(C, req)
+     ELSE Cascade(Canon(C, req), req) \in Outcomes(C, req)
 =============================================================================
